@@ -103,22 +103,40 @@ def run(p: Program, rep: Report, tier: str) -> None:
             else:
                 rep.violation("R10.3", construct(st, text="disconnect handling"), where(st), "asgi: a disconnect message does not surface as ClientDisconnect on every path")
             # non-empty chunk -> yielded
-            src = ast.unparse(st.node)
-            if "if body:\n                    yield body" in src or "if body:\n    yield body" in src.replace("            ", ""):
+            # role: the local bound to <message>.get("body", ...); it must be yielded (guarded at most by its own truth)
+            body_names = {t.id for n in ast.walk(st.node) if isinstance(n, ast.Assign) and isinstance(n.value, ast.Call) and isinstance(n.value.func, ast.Attribute) and n.value.func.attr == "get"
+                          and n.value.args and isinstance(n.value.args[0], ast.Constant) and n.value.args[0].value == "body" for t in n.targets if isinstance(t, ast.Name)}
+            ys = [n for n in ast.walk(st.node) if isinstance(n, ast.Yield) and n.value is not None and ((isinstance(n.value, ast.Name) and n.value.id in body_names)
+                  or (isinstance(n.value, ast.Call) and isinstance(n.value.func, ast.Attribute) and n.value.func.attr == "get" and n.value.args and isinstance(n.value.args[0], ast.Constant) and n.value.args[0].value == "body"))]
+            from ..common import guards_of as _guards_of
+            okg = False
+            for y in ys:
+                gs = [(ast.unparse(g), pol) for g, pol in _guards_of(y, st.node)]
+                inner = [g for g in gs if not ("'type'" in g[0] or '"type"' in g[0])]
+                if all(pol and (g in body_names) for g, pol in inner):
+                    okg = True
+            if ys and okg:
                 rep.ok("R10.3", "asgi: every non-empty chunk is yielded")
+            elif ys:
+                rep.violation("R10.3", construct(st, text="chunk yield guarded"), where(st, ys[0]), "asgi: a received chunk is yielded only under an extra condition (chunks can be skipped)")
             else:
-                ys = [n for n in ast.walk(st.node) if isinstance(n, ast.Yield) and n.value is not None and ast.unparse(n.value) == "body"]
-                if ys:
-                    rep.ok("R10.3", "asgi: chunks are yielded")
-                else:
-                    rep.violation("R10.3", construct(st, text="chunks not yielded"), where(st), "asgi: received chunks are not yielded")
+                rep.violation("R10.3", construct(st, text="chunks not yielded"), where(st), "asgi: received chunks are not yielded")
         else:
             # WSGI: return only on an empty read; every non-empty chunk yielded
             loops = [n for n in ast.walk(st.node) if isinstance(n, ast.While)]
             ok = False
             for lp in loops:
-                t = ast.unparse(lp)
-                if "chunk = body.read(chunk_size)" in t and "if not chunk:\n        return" in t and "yield chunk" in t:
+                # roles: the chunk is the local bound to <input>.read(<size parameter>) inside the loop
+                reads_ = [n for n in lp.body if isinstance(n, ast.Assign) and len(n.targets) == 1 and isinstance(n.targets[0], ast.Name) and isinstance(n.value, ast.Call)
+                          and isinstance(n.value.func, ast.Attribute) and n.value.func.attr == "read"]
+                if len(reads_) != 1 or lp.body.index(reads_[0]) != 0 or len(lp.body) != 3:
+                    continue
+                ck = reads_[0].targets[0].id
+                size_ok = [ast.unparse(a) for a in reads_[0].value.args] == [st.params[1]] if len(st.params) > 1 else False
+                test, yld = lp.body[1], lp.body[2]
+                stop = isinstance(test, ast.If) and not test.orelse and ast.unparse(test.test) == f"not {ck}" and len(test.body) == 1 and isinstance(test.body[0], (ast.Return, ast.Break)) and getattr(test.body[0], "value", None) is None
+                emits = isinstance(yld, ast.Expr) and isinstance(yld.value, ast.Yield) and isinstance(yld.value.value, ast.Name) and yld.value.value.id == ck
+                if size_ok and stop and emits:
                     ok = True
             if ok:
                 rep.ok("R10.3", "wsgi: the read loop returns only on an empty read and yields every chunk")
@@ -127,8 +145,19 @@ def run(p: Program, rep: Report, tier: str) -> None:
         # R10.4
         rets = [n for n in walk_shallow(body.node) if isinstance(n, ast.Return)]
         txt = ast.unparse(rets[0].value) if rets else ""
-        want = {"wsgi": "b''.join([chunk for chunk in self.stream()])", "asgi": "b''.join([chunk async for chunk in self.stream()])"}[side]
-        if txt in (want, want.replace("[", "").replace("]", "")) or txt.replace("[", "(").replace("]", ")") == want.replace("[", "(").replace("]", ")"):
+        bpaths, _bc, _bi = run_paths(p, body, req)
+        bvals = [pa.value for pa in bpaths if pa.exit == "return"]
+        join_ok = False
+        if len(rets) == 1 and len(bvals) == 1:
+            v = bvals[0]
+            # b"".join(<comprehension of the elements of self.stream(), unfiltered, element unchanged>)
+            if v[0] == "call" and v[1] == ("attr", ("const", b""), "join") and len(v[2]) == 1 and v[2][0][0] == "comp" and v[2][0][1] in ("list", "gen"):
+                cmpv = v[2][0]
+                src_ = cmpv[3]
+                is_stream = (src_[0] == "gen" and src_[1] == st.fq and not src_[2] and not src_[3] and src_[4] == ("param", "self")) or \
+                    (src_[0] == "call" and callee_is(src_[1], "stream", "Request.stream") and not src_[2])
+                join_ok = cmpv[2] == ("elem", src_) and not cmpv[4] and is_stream
+        if join_ok:
             rep.ok("R10.4", f"{side}: body = b''.join(all chunks of self.stream())")
         else:
             rep.violation("R10.4", construct(body, text=f"return {txt}"), where(body), f"{side}: body is not the concatenation of exactly the chunks of self.stream()")
